@@ -420,6 +420,7 @@ func (e *Engine) runPath(h *ssa.Function, prefix []Decision, sol *Solver, concre
 						engineError = fmt.Sprint(r2)
 					}
 				}()
+				ex.overridePos, ex.overrideFn = p.pos, p.fn
 				ex.require(ex.st.False, "panic", "uncaught panic: "+p.msg)
 			}()
 		case *EngineError:
